@@ -53,18 +53,18 @@ def passed_tests(src_root: pathlib.Path) -> set:
     return ok
 
 
-def run_check(prop: str, src: str | None) -> dict:
+def run_check(prop: str, src: str | None, verif: pathlib.Path = VERIF) -> dict:
     env = dict(ENV)
     if src:
         env['EMSARRAY_VERIF_SRC'] = src
-    rc, out = sh([str(VERIF / 'check'), prop, '--tier', 'quick'], cwd=VERIF, env=env)
+    rc, out = sh([str(verif / 'check'), prop, '--tier', 'quick'], cwd=verif, env=env)
     vio = [l for l in out.splitlines() if l.startswith('VIOLATION')]
     res = {'property': prop, 'exit': rc, 'violation_line': vio[0] if vio else None}
     if vio:
         m = re.search(r'replay=(\S+)', vio[0])
         if m:
             p = pathlib.Path(m.group(1))
-            p = p if p.is_absolute() else VERIF / p
+            p = p if p.is_absolute() else verif / p
             try:
                 d = json.loads(p.read_text())
                 res['kind'] = d.get('kind')
@@ -144,8 +144,52 @@ def official(sid: str, props: list) -> None:
     print(json.dumps([{k: r.get(k) for k in ('property', 'exit', 'kind', 'signature')} for r in results]))
 
 
+def _isolated_worker(k: int, ids: list) -> None:
+    """One worker: its own copy of /verif (so the generated Lean files of concurrent runs do not mix) and its own scratch
+    worktree of /repo; every seed is applied there and judged by the copy's quick check (dev mode)."""
+    copy = pathlib.Path(f'/tmp/vseed_{k}/verif')
+    wt = pathlib.Path(f'/tmp/vseed_{k}/repo')
+    shutil.rmtree(copy.parent, ignore_errors=True)
+    copy.parent.mkdir(parents=True)
+    sh(['rsync', '-a', '--exclude', '.git', '--exclude', 'evidence', '--exclude', 'seeded/mutation', str(VERIF) + '/', str(copy) + '/'])
+    sh(['git', '-C', '/repo', 'worktree', 'prune'])
+    rc, out = sh(['git', '-C', '/repo', 'worktree', 'add', '--detach', str(wt)])
+    if rc:
+        raise SystemExit(out)
+    try:
+        for sid in ids:
+            dest = VERIF / 'seeded' / sid
+            meta = json.loads((dest / 'meta.json').read_text())
+            sh(['git', 'checkout', '--', '.'], cwd=wt)
+            rc, out = sh(['git', 'apply', str(dest / 'patch.diff')], cwd=wt)
+            if rc:
+                res = {'property': meta['property'], 'exit': None, 'error': 'patch does not apply: ' + out[-300:]}
+            else:
+                res = run_check(meta['property'], str(wt / 'src'), copy)
+            meta['check_in_isolated_copy'] = res
+            (dest / 'meta.json').write_text(json.dumps(meta, indent=1))
+            print(json.dumps({'id': sid} | {k2: res.get(k2) for k2 in ('exit', 'kind', 'signature')}), flush=True)
+    finally:
+        sh(['git', '-C', '/repo', 'worktree', 'remove', '--force', str(wt)])
+        shutil.rmtree(copy.parent, ignore_errors=True)
+
+
+def isolated(workers: int, ids: list) -> None:
+    """seedtool.py isolated <workers> <seed id> ... : verdicts of the quick checks on many seeds at once, each worker in a
+    private copy of /verif with a private scratch worktree of /repo (nothing is applied to /repo itself)."""
+    import multiprocessing
+    shares = [ids[i::workers] for i in range(workers)]
+    procs = [multiprocessing.Process(target=_isolated_worker, args=(k, share)) for k, share in enumerate(shares) if share]
+    for p in procs:
+        p.start()
+    for p in procs:
+        p.join()
+
+
 if __name__ == '__main__':
-    if sys.argv[1] == 'confirm':
+    if sys.argv[1] == 'isolated':
+        isolated(int(sys.argv[2]), sys.argv[3:])
+    elif sys.argv[1] == 'confirm':
         confirm(*sys.argv[2:5])
     elif sys.argv[1] == 'official':
         official(sys.argv[2], sys.argv[3:])
